@@ -59,11 +59,13 @@ func (m *TN93Model) Distance(seq1 []uint8, seq2 []uint8, weights []float64) (flo
 	}
 
 	dist = 2.*(m.pi[0]*m.pi[2]+m.pi[1]*m.pi[3])*(y*b1+(1-y)*b2) + 2*pir*piy*b3
-	if dist > 0 {
-		return dist, nil
-	} else {
+	// Slightly negative distances (rounding) are set to 0.
+	// A distance that is not defined (NaN: saturation, no comparable
+	// site) is not a null distance: it is returned as is
+	if dist < 0 {
 		return 0, nil
 	}
+	return dist, nil
 }
 
 func (m *TN93Model) InitModel(al align.Alignment, weights []float64, gamma bool, alpha float64) (err error) {
